@@ -272,6 +272,10 @@ MUTANTS += [
 ]
 
 MUTANTS += [
+    ("c02_float32_point_regression", "C02", "solver.py", "    xm, ym = (float(c) for c in meas_pt)\n", "    xm, ym = meas_pt\n"),
+]
+
+MUTANTS += [
     # ---- a NaN in one cell (comparisons of the form "error > tolerance" are blind to NaN: the finiteness monitor of the call path sees it)
     ("c06_nan_in_one_cell_when_three_levels", "C06", "solver.py", "    result = (grid, np.squeeze(conc), np.squeeze(flx))\n",
      "    if nlvls == 3:\n        conc[-1, 0, 0] = np.nan\n    result = (grid, np.squeeze(conc), np.squeeze(flx))\n"),
